@@ -286,11 +286,35 @@ func vf04Hello(s *vf04Source, rnd *vfDetRand, name string) (raw []byte, exp vf04
 			exp = vf04ExpectOf(c.clientHelloSpec)
 		}
 		return c.HandshakeState.Hello.Raw, exp, "", nil
-	default: // fingerprinted: capture = a hello of the parrot built with another stream; spec = fingerprint of it
+	default: // fingerprinted / json: capture = a hello of the parrot built with another stream; spec = fingerprint of it
 		capCfg := &Config{ServerName: vfDNSNameOfLen(len(name), 'c'), OmitEmptyPsk: true, Rand: vfNewDetRand(uint64(len(name)), "capture-"+s.parrot.Name)}
 		cc := UClient(cp, capCfg, s.parrot.ID)
 		if err = cc.BuildHandshakeState(); err != nil {
 			return
+		}
+		var spec *ClientHelloSpec
+		if s.kind == "json" {
+			// the same capture written in the documented JSON format and imported with ClientHelloSpec.UnmarshalJSON
+			doc, ok := vf02HelloToJSON(vfParseClientHello(cc.HandshakeState.Hello.Raw))
+			if !ok {
+				return nil, exp, "capture-not-expressible-in-json", nil
+			}
+			spec = &ClientHelloSpec{}
+			if jerr := spec.UnmarshalJSON(doc); jerr != nil {
+				return nil, exp, "json-import-error: " + jerr.Error(), nil
+			}
+			exp = vf04ExpectOf(spec)
+			cp2, sp2 := vfPipe()
+			defer cp2.Close()
+			defer sp2.Close()
+			c := UClient(cp2, cfg, HelloCustom)
+			if err = c.ApplyPreset(spec); err != nil {
+				return nil, exp, "json-spec-not-applicable: " + err.Error(), nil
+			}
+			if err = c.BuildHandshakeState(); err != nil {
+				return nil, exp, "json-spec-not-buildable: " + err.Error(), nil
+			}
+			return c.HandshakeState.Hello.Raw, exp, "", nil
 		}
 		spec, ferr := (&Fingerprinter{}).FingerprintClientHello(vf04Record(cc.HandshakeState.Hello.Raw))
 		if ferr != nil {
@@ -357,9 +381,12 @@ func vf04GenSource(rt *rapid.T) *vf04Source {
 		copy(seed[:], rapid.SliceOfN(rapid.Byte(), 32, 32).Draw(rt, "seed"))
 		id.Seed = &seed
 		return &vf04Source{kind: "randomized", id: id}
-	case 1, 2, 3:
+	case 1, 2:
 		p := vfGenParrot(rt, "parrot")
 		return &vf04Source{kind: "fingerprinted", parrot: p, id: p.ID}
+	case 3:
+		p := vfGenParrot(rt, "parrot")
+		return &vf04Source{kind: "json", parrot: p, id: p.ID}
 	default:
 		p := vfGenParrot(rt, "parrot")
 		return &vf04Source{kind: "parrot", parrot: p, id: p.ID}
@@ -388,6 +415,7 @@ func TestVerifC04AllParrots(t *testing.T) {
 		vf04RunSource(st, t, &vf04Source{kind: "parrot", parrot: p, id: p.ID}, vf04Conns, uint64(1000+i), true)
 		vf04RunSource(st, t, &vf04Source{kind: "parrot", parrot: p, id: p.ID}, 16, 0, false)
 		vf04RunSource(st, t, &vf04Source{kind: "fingerprinted", parrot: p, id: p.ID}, vf04Conns, uint64(2000+i), true)
+		vf04RunSource(st, t, &vf04Source{kind: "json", parrot: p, id: p.ID}, 8, uint64(3000+i), true)
 	}
 }
 
